@@ -94,11 +94,15 @@ def _single_window_guard(ck: Checker, prog: Program, cls):
         leaves = PathTable(prog, m.module, call_hook=pkg_call_hook(prog, m.module, cls)).leaves(m.node.body)
         problems = []
         n_dec = 0
+        MASK = sp.Symbol("self.valid_window_boolean_mask", real=True)
+        same_count = {sp.Function("count_nonzero")(MASK): COUNT, sp.Function("attr_sum")(MASK): COUNT, sp.Function("nansum")(MASK): COUNT,
+                      sp.Function("len")(sp.Function("getitem")(MASK, MASK)): COUNT}
         for l in leaves:
-            lits = [x for x in literals(l) if x.has(COUNT)]
-            others = [x for x in literals(l) if not x.has(COUNT)]
+            all_lits = [x.xreplace(same_count) if hasattr(x, "xreplace") else x for x in literals(l)]
+            lits = [x for x in all_lits if x.has(COUNT)]
+            others = [x for x in all_lits if not x.has(COUNT)]
             if len(lits) != 1:
-                problems.append(f"a path decides on {[str(x) for x in literals(l)]} instead of the number of accepted windows")
+                problems.append(f"a path decides on {[str(x) for x in all_lits]} instead of the number of accepted windows")
                 continue
             x = lits[0]
             n_dec += 1
